@@ -19,3 +19,8 @@ from contracts import tools as TL
 UNITS += [TL.unit_validated_python_name(), TL.unit_generated_tokens()]
 UNITS += [IF.unit_cid_init()]
 UNITS += [FL.unit_set_example()]
+from contracts import ranges_init as RI, structure as ST
+UNITS += RI.units_range_init(shapes=[(1, 1, 1)], props=("C01", "C09"))
+UNITS += [ST.unit_no_hidden_state().also("C09")]
+from props import _groups as _G
+UNITS = _G.with_groups(PROPERTY, UNITS, _G.CID, _G.FIELD_DECLS)
